@@ -27,6 +27,12 @@ func (s *Store) Put(id packet.ID, future *Future) {
 	s.mutex.Lock()
 	defer s.mutex.Unlock()
 
+	// cancel a different future that is still stored under the same id, as
+	// nothing could complete it anymore
+	if existing, ok := s.store[id]; ok && existing != future {
+		existing.Cancel(nil)
+	}
+
 	// set future
 	s.store[id] = future
 }
